@@ -26,7 +26,7 @@ func FollowLinks(fs FS, paths []string) ([]string, error) {
 		res = append(res, filepath.ToSlash(r))
 	}
 	sort.Strings(res)
-	return dedupePaths(res), nil
+	return dedupeResolved(res), nil
 }
 
 type symlinkResolver struct {
@@ -229,20 +229,33 @@ func dedupePaths(in []string) []string {
 		if strings.HasPrefix(s, last+"/") {
 			continue
 		}
-		// in a bytewise sorted list an element such as "a-b" sorts between
-		// "a" and "a/x", so the previous element alone is not enough
+		out = append(out, s)
+		last = s
+	}
+	return out
+}
+
+// dedupeResolved drops every path that lies below another element of the
+// sorted list. In a bytewise sorted list an element such as "a-b" sorts
+// between "a" and "a/x", so comparing with the previous element only (as
+// dedupePaths does) is not enough.
+func dedupeResolved(in []string) []string {
+	out := dedupePaths(in)
+	res := out[:0]
+	for _, s := range out {
 		covered := false
-		for _, o := range out {
+		for _, o := range res {
 			if strings.HasPrefix(s, o+"/") {
 				covered = true
 				break
 			}
 		}
-		if covered {
-			continue
+		if !covered {
+			res = append(res, s)
 		}
-		out = append(out, s)
-		last = s
 	}
-	return out
+	if out == nil {
+		return nil
+	}
+	return res
 }
